@@ -7,7 +7,7 @@ import pickletools
 
 from hypothesis import strategies as st
 
-from ..common import Violation, dec, enc, short
+from ..common import Violation, dec, enc, rebuild, short
 from ..engine import SubCheck
 from ..model import ident, sort_key, strict
 
@@ -184,8 +184,8 @@ class Pairs(SubCheck):
         c = get_cache(env, disk, protocol)
         c.clear()
         # one deterministic builder for both keys
-        k1 = dec(enc(case['k1']))
-        k2 = dec(enc(case['k2']))
+        k1 = rebuild(case['k1'])
+        k2 = rebuild(case['k2'])
         jd = disk == 'JSONDisk'
         id1, id2 = (jident(k1), jident(k2)) if jd else (ident(k1), ident(k2))
         equal = id1 == id2
